@@ -74,7 +74,7 @@ class Layout(object):
         self.meta = True
         self.ilst = "tagged"           # "none" | "empty" | "tagged"
         self.free = ()                 # subset of: before-ilst after-ilst meta-far udta moov top-pre top-mid top-end
-        self.wide = ()                 # subset of: mdat moov udta meta trak
+        self.wide = ()                 # subset of: mdat moov udta meta trak table tfhd (64-bit size header on that atom)
         self.zero_last = False         # last top-level atom written with size 0
         self.nmoof = 0
         self.tfhd_noflag = False       # add a traf whose tfhd has no base-data-offset
@@ -109,10 +109,17 @@ def build(lay):
     def trak(t, kind, base):
         entries = [base + rel[(t, c)] for c in range(lay.nchunks)]
         if kind == "stco":
-            table = full(b"stco", 0, 0, struct.pack(">I", len(entries)) + b"".join(struct.pack(">I", e) for e in entries))
+            table = full(b"stco", 0, 0, struct.pack(">I", len(entries)) + b"".join(struct.pack(">I", e) for e in entries),
+                         wide=("table" in wide and t == 0))
         else:
-            table = full(b"co64", 0, 0, struct.pack(">I", len(entries)) + b"".join(struct.pack(">Q", e) for e in entries))
-        stsd_entry = box(b"mp4a", b"\0" * 6 + struct.pack(">H", 1) + b"\0" * 8 + struct.pack(">HHHHI", 2, 16, 0, 0, 44100 << 16))
+            table = full(b"co64", 0, 0, struct.pack(">I", len(entries)) + b"".join(struct.pack(">Q", e) for e in entries),
+                         wide=("table" in wide and t == 0))
+        # MP4AudioSampleEntry with its ESDBox (ISO 14496-14 §5.6, 14496-1 §7.2.6): AAC LC, 44.1 kHz, stereo
+        dsi = b"\x05\x02\x12\x10"
+        dcd = b"\x04" + bytes([13 + len(dsi)]) + b"\x40\x15" + b"\0\0\0" + struct.pack(">II", 128000, 128000) + dsi
+        esd = b"\x03" + bytes([3 + len(dcd) + 3]) + b"\0\0\0" + dcd + b"\x06\x01\x02"
+        stsd_entry = box(b"mp4a", b"\0" * 6 + struct.pack(">H", 1) + b"\0" * 8 + struct.pack(">HHHHI", 2, 16, 0, 0, 44100 << 16) +
+                         full(b"esds", 0, 0, esd))
         stbl = box(b"stbl",
                    full(b"stsd", 0, 0, struct.pack(">I", 1) + stsd_entry) +
                    full(b"stts", 0, 0, struct.pack(">III", 1, lay.nchunks, 1024)) +
@@ -200,7 +207,7 @@ def build(lay):
         fpay = b"frag-lead" + marker("F", k, 0) + marker("F", k, 1)
 
         def moof(base_off):
-            tf = full(b"tfhd", 0, 0x000001, struct.pack(">IQ", 1, base_off))
+            tf = full(b"tfhd", 0, 0x000001, struct.pack(">IQ", 1, base_off), wide=("tfhd" in wide))
             trun = full(b"trun", 0, 0x000001, struct.pack(">Ii", 2, 9))
             trafs = box(b"traf", tf + trun)
             if lay.tfhd_noflag:
@@ -586,6 +593,9 @@ def layouts(ctx):
         add(moov_first=mf, wide=("moov",))
         add(moov_first=mf, wide=("moov", "udta", "meta", "trak", "mdat"), traks=["co64", "stco"])
         add(moov_first=mf, wide=("udta",), udta="before", meta=False, ilst="none")
+        add(moov_first=mf, wide=("table",))
+        add(moov_first=mf, wide=("table",), traks=["co64", "stco"])
+        add(moov_first=mf, wide=("tfhd",), nmoof=1)
         add(moov_first=mf, zero_last=True)
         add(moov_first=mf, zero_last=True, udta="none", meta=False, ilst="none")
         add(moov_first=mf, nmoof=1)
@@ -603,7 +613,8 @@ def layouts(ctx):
         ilst = rng.choice(["none", "empty", "tagged", "tagged"]) if meta else "none"
         free = tuple(f for f in ("before-ilst", "after-ilst", "meta-far", "udta", "moov", "top-pre", "top-mid", "top-end")
                      if rng.random() < 0.25)
-        wide = tuple(w for w in ("mdat", "moov", "udta", "meta", "trak") if rng.random() < 0.2)
+        wide = tuple(w for w in ("mdat", "moov", "udta", "meta", "trak") if rng.random() < 0.2) + \
+            tuple(w for w in ("table", "tfhd") if rng.random() < 0.04)
         L.append(Layout(moov_first=rng.random() < 0.5, traks=[rng.choice(["stco", "co64"]) for _ in range(rng.choice([1, 1, 2, 3]))],
                         udta=udta, meta=meta, ilst=ilst, free=free, wide=wide, zero_last=rng.random() < 0.15,
                         nmoof=rng.choice([0, 0, 0, 1, 1, 2, 3]), tfhd_noflag=rng.random() < 0.3,
@@ -623,8 +634,12 @@ def quirks_of(lay, data):
     if lay is not None:
         if lay.zero_last and last is not None and last.name == b"moov":
             q.append("size0-moov")
-        if lay.ilst_first and ("meta-far" in lay.free) and lay.meta and lay.ilst != "none":
+        if lay.ilst_first and ("meta-far" in lay.free) and lay.meta and lay.ilst != "none" and "before-ilst" not in lay.free:
             q.append("ilst-first-free-last")
+        if "table" in lay.wide:
+            q.append("wide-table")
+        if "tfhd" in lay.wide and lay.nmoof:
+            q.append("wide-tfhd")
     return q
 
 
